@@ -511,7 +511,10 @@ static inline int ubuf_block_prepend(struct ubuf *ubuf, int prepend)
     block->offset -= prepend;
     block->size += prepend;
     block->total_size += prepend;
-    block->cached_offset += prepend;
+    /* the cached offset is that of the cached segment: it only moves if that
+     * segment is not the head itself */
+    if (block->cached_ubuf != ubuf)
+        block->cached_offset += prepend;
     return UBASE_ERR_NONE;
 }
 
